@@ -13,7 +13,8 @@ if "--seeded" in sys.argv:
     # the same for the seeded changes kept under /verif/seeded: apply patch.diff instead of reverting a commit
     fixed = [dict(property=d.split("-")[0], commit=d, patch=os.path.join("/verif/seeded", d, "patch.diff"),
                   what=json.load(open(os.path.join("/verif/seeded", d, "meta.json")))["needs_to_manifest"])
-             for d in sorted(os.listdir("/verif/seeded")) if not only or d in only]
+             for d in sorted(os.listdir("/verif/seeded")) if (not only or d in only)
+             and not json.load(open(os.path.join("/verif/seeded", d, "meta.json"))).get("not_a_violation_on_this_tree")]
 
 
 def one(f):
